@@ -111,6 +111,7 @@ func generalPlan(tier string, faults bool) []PlanItem {
 			PlanItem{scnTerms("terms-health-K1", K1, []string{"ok", "bad", "bad", "bad", "ok", "ok", "ok", "bad", "bad", "bad", "ok"}, 3, "A"), d},
 			PlanItem{scnTerms("terms-health2-K1", K1, []string{"ok", "bad", "bad", "ok"}, 2, "A", "B"), d},
 			PlanItem{scnPreempt("preempt-lowfirst-K1", K1, []InstSpec{{ID: "A", Priority: 1, Takeover: true}, {ID: "B", Priority: 2, Takeover: true}}, []string{"A", "B"}), d},
+			PlanItem{scnPreemptStop("preempt-then-stopdel-K1", K1), d},
 			PlanItem{scnPreempt("preempt-mixed-K1", K1, []InstSpec{{ID: "A", Priority: 2}, {ID: "B", Priority: 2, Takeover: true}, {ID: "C", Priority: 3, Takeover: true}}, []string{"A", "B", "C"}), d},
 		)
 	}
@@ -135,4 +136,12 @@ func init() {
 		Plan: func(t string) []PlanItem { return append(generalPlan(t, true), finePlan("C18", t)...) }}
 	props["C19"] = &propDef{Level: "exploration", Rule: ruleExpl + "a promotion callback received a context", Assume: base,
 		Plan: func(t string) []PlanItem { return append(generalPlan(t, true), finePlan("C19", t)...) }}
+}
+
+// preempt-then-stop: A (priority 1) leads, B (priority 2, takeover) preempts it; A is
+// shut down with DeleteKey before it has noticed (its next heartbeat is 200 ms away).
+func scnPreemptStop(name string, k kfn) *Scenario {
+	s := scnPreempt(name, k, []InstSpec{{ID: "A", Priority: 1, Takeover: true}, {ID: "B", Priority: 2, Takeover: true}}, []string{"A", "B"})
+	s.Script = append(s.Script, Item{At: s.H/2 + 3*us, Actor: "stopA", Do: "stopctx", Inst: "A", DeleteKey: true})
+	return s
 }
